@@ -273,3 +273,748 @@ Proof.
     unfold znth in *. lia.
   - apply sorted_lt_map; auto.
 Qed.
+
+(* ============================================== aggregation of separated chunks *)
+Definition KeysBefore (a b : list pixel) : Prop :=
+  forall ka kb, In ka (keys a) -> In kb (keys b) -> klt ka kb.
+
+Lemma ssorted_app_gen {A} (R : A -> A -> Prop) l1 l2 :
+  StronglySorted R l1 -> StronglySorted R l2 -> (forall x y, In x l1 -> In y l2 -> R x y) ->
+  StronglySorted R (l1 ++ l2).
+Proof.
+  induction 1 as [|a l HS IH Hall]; intros H2 HR; [exact H2|].
+  cbn [app]. constructor.
+  - apply IH; auto. intros x y Hx Hy. apply HR; [now right|exact Hy].
+  - apply Forall_app. split; [exact Hall|]. apply Forall_forall. intros y Hy. apply HR; [now left|exact Hy].
+Qed.
+
+Lemma aggregate_app_sep a b : KeysBefore a b -> aggregate (a ++ b) = aggregate a ++ aggregate b.
+Proof.
+  intros HB. apply (canon_unique (a ++ b)); [apply aggregate_canon|].
+  destruct (aggregate_canon a) as (Sa & Ka & La). destruct (aggregate_canon b) as (Sb & Kb & Lb).
+  split; [|split].
+  - unfold SSorted, keys. rewrite map_app. apply ssorted_app_gen; auto.
+    intros x y Hx Hy. apply HB; [now apply Ka|now apply Kb].
+  - intros k. unfold keys in *. rewrite !map_app, !in_app_iff, Ka, Kb. reflexivity.
+  - intros k. rewrite !look_app, La, Lb. reflexivity.
+Qed.
+
+Lemma keys_concat_in parts k : In k (keys (concat parts)) <-> exists p, In p parts /\ In k (keys p).
+Proof.
+  unfold keys. induction parts as [|a ps IH]; cbn [concat map].
+  - split; [intros []|intros [p [[] _]]].
+  - rewrite map_app, in_app_iff, IH. split.
+    + intros [H|[p [Hp Hk]]]; [exists a; split; [now left|exact H]|exists p; split; [now right|exact Hk]].
+    + intros [p [[<-|Hp] Hk]]; [now left|right; eauto].
+Qed.
+
+(** the per-chunk canonical aggregates of pairwise ordered chunks concatenate to the canonical
+    aggregate of everything *)
+Theorem chunks_canon parts :
+  ForallOrdPairs KeysBefore parts -> concat (map aggregate parts) = aggregate (concat parts).
+Proof.
+  induction 1 as [|a ps Hall HF IH]; [reflexivity|].
+  cbn [map concat]. rewrite IH. symmetry. apply aggregate_app_sep.
+  intros ka kb Ha Hb. apply keys_concat_in in Hb as [p [Hp Hk]].
+  rewrite Forall_forall in Hall. exact (Hall p Hp ka kb Ha Hk).
+Qed.
+
+(* ================================================= cutting a row-sorted pixel list *)
+Definition RowSorted (px : list pixel) : Prop := StronglySorted Z.le (map row px).
+
+Lemma ssorted_rowsorted px : SSorted px -> RowSorted px.
+Proof.
+  unfold SSorted, RowSorted, keys. induction px as [|p px IH]; cbn [map]; intros H; [constructor|].
+  inversion H as [|? ? Hs Hall]; subst. constructor; [now apply IH|].
+  rewrite Forall_forall in *. intros y Hy. apply in_map_iff in Hy as [q [<- Hq]].
+  specialize (Hall (fst q) (in_map fst _ _ Hq)). unfold klt, row in *. lia.
+Qed.
+
+(** number of pixels whose row is < r : the entry r of indexes/bin1_offset *)
+Definition cut_at (px : list pixel) (r : Z) : nat := length (filter (fun p => row p <? r) px).
+
+Lemma cut_at_split px r : RowSorted px ->
+  Forall (fun p => row p < r) (firstn (cut_at px r) px) /\
+  Forall (fun p => r <= row p) (skipn (cut_at px r) px).
+Proof.
+  unfold RowSorted, cut_at. induction px as [|p px IH]; cbn [map]; intros HS.
+  - cbn. split; constructor.
+  - inversion HS as [|? ? Hs Hall]; subst. cbn [filter].
+    destruct (row p <? r) eqn:E.
+    + cbn [length firstn skipn]. destruct (IH Hs) as [A B]. split; [constructor; [lia|exact A]|exact B].
+    + assert (Hnone : filter (fun p0 => row p0 <? r) px = []).
+      { apply filter_none. intros x Hx. rewrite Forall_forall in Hall.
+        specialize (Hall (row x) (in_map row _ _ Hx)). lia. }
+      rewrite Hnone. cbn. split; [constructor|].
+      constructor; [lia|]. apply Forall_forall. intros x Hx. rewrite Forall_forall in Hall.
+      specialize (Hall (row x) (in_map row _ _ Hx)). lia.
+Qed.
+
+Lemma cut_at_le px r : (cut_at px r <= length px)%nat.
+Proof.
+  unfold cut_at. induction px as [|p px IH]; cbn [filter length]; [lia|].
+  destruct (row p <? r); cbn [length]; lia.
+Qed.
+
+Lemma bin1_offset_nth n px r : 0 <= r <= n ->
+  znth (bin1_offset n px) r 0 = Z.of_nat (cut_at px r).
+Proof.
+  intros Hr. unfold bin1_offset, znth.
+  rewrite (nth_error_nth _ (Z.to_nat r) 0 (x := Z.of_nat (cut_at px r))); [reflexivity|].
+  rewrite nth_error_map, nth_error_zrange by lia. cbn. unfold zlen, cut_at. do 3 f_equal.
+  rewrite Z2Nat.id by lia. reflexivity.
+Qed.
+
+(* ======================================================== spans and the chunk stream *)
+Lemma spans_cons a b r : spans (a :: b :: r) = (a, b) :: spans (b :: r).
+Proof. reflexivity. Qed.
+
+Lemma firstn_add {A} (l : list A) a m : firstn (a + m) l = firstn a l ++ firstn m (skipn a l).
+Proof.
+  revert l. induction a as [|a IH]; intros l; [reflexivity|].
+  destruct l as [|x l]; [cbn; now rewrite firstn_nil|]. cbn [Nat.add firstn skipn app]. f_equal. apply IH.
+Qed.
+
+Lemma skipn_add {A} (l : list A) a m : skipn (a + m) l = skipn m (skipn a l).
+Proof.
+  revert l. induction a as [|a IH]; intros l; [reflexivity|].
+  destruct l as [|x l]; [cbn; now rewrite skipn_nil|]. cbn [Nat.add skipn]. apply IH.
+Qed.
+
+(** an aligned cut: every re-keyed row before position c is smaller than every re-keyed row from c on *)
+Definition AlignedCut (f : Z -> Z) (px : list pixel) (c : nat) : Prop :=
+  forall p q, In p (firstn c px) -> In q (skipn c px) -> f (row p) < f (row q).
+
+Lemma slice_split (px : list pixel) a b : 0 <= a <= b ->
+  skipn (Z.to_nat a) px = slice px a b ++ skipn (Z.to_nat b) px.
+Proof.
+  intros H. unfold slice. replace (Z.to_nat b) with (Z.to_nat a + Z.to_nat (b - a))%nat by lia.
+  rewrite skipn_add. symmetry. apply firstn_skipn.
+Qed.
+
+Lemma slice_in_firstn (px : list pixel) a b p : 0 <= a <= b -> In p (slice px a b) -> In p (firstn (Z.to_nat b) px).
+Proof.
+  intros H Hp. unfold slice in Hp. replace (Z.to_nat b) with (Z.to_nat a + Z.to_nat (b - a))%nat by lia.
+  rewrite firstn_add. apply in_or_app. now right.
+Qed.
+
+Section Stream.
+  Variable tbl : list Z.
+  Variable px : list pixel.
+  Let f := fun r => znth tbl r 0.
+
+  Lemma rekey_row p : row (rekey tbl p) = f (row p).
+  Proof. reflexivity. Qed.
+
+  Lemma keys_before_cut c (a b : list pixel) :
+    AlignedCut f px c ->
+    (forall p, In p a -> In p (firstn c px)) -> (forall q, In q b -> In q (skipn c px)) ->
+    KeysBefore (map (rekey tbl) a) (map (rekey tbl) b).
+  Proof.
+    intros HA Ha Hb ka kb Hka Hkb. unfold keys in *. rewrite map_map in Hka, Hkb.
+    apply in_map_iff in Hka as [p [<- Hp]]. apply in_map_iff in Hkb as [q [<- Hq]].
+    left. cbn [fst rekey]. apply (HA p q); auto.
+  Qed.
+
+  (** the chunk stream over a strictly increasing list of aligned cuts that ends at nnz *)
+  Lemma spans_canon e : forall a,
+    StronglySorted Z.lt (a :: e) -> 0 <= a -> last (a :: e) 0 = zlen px ->
+    Forall (fun c => AlignedCut f px (Z.to_nat c)) (a :: e) ->
+    concat (map (aggregate_span px tbl) (spans (a :: e))) = aggregate (map (rekey tbl) (skipn (Z.to_nat a) px)).
+  Proof.
+    induction e as [|b r IH]; intros a HS Ha Hlast Hal.
+    - cbn [last] in Hlast. subst a. unfold zlen. rewrite Nat2Z.id, skipn_all. reflexivity.
+    - rewrite spans_cons. cbn [map concat].
+      inversion HS as [|? ? HS' Hall]; subst. inversion Hall as [|? ? Hab _]; subst.
+      inversion Hal as [|? ? _ Hal']; subst.
+      rewrite IH; auto; [|lia].
+      unfold aggregate_span at 1. cbn [fst snd].
+      rewrite (slice_split px a b) by lia. rewrite map_app. symmetry. apply aggregate_app_sep.
+      inversion Hal' as [|? ? Hb _]; subst.
+      apply (keys_before_cut (Z.to_nat b)); auto.
+      intros p Hp. apply (slice_in_firstn px a b); [lia|exact Hp].
+  Qed.
+End Stream.
+
+(* chunks_of: batching does not change an order-preserving map *)
+Lemma chunks_n_concat {A} (n : nat) : (1 <= n)%nat ->
+  forall fuel (l : list A), (length l <= fuel)%nat -> concat (chunks_n fuel n l) = l.
+Proof.
+  intros Hn. induction fuel as [|f IH]; intros l Hl.
+  - destruct l; [reflexivity|cbn in Hl; lia].
+  - destruct l as [|x l]; [reflexivity|]. cbn [chunks_n concat].
+    rewrite IH; [apply firstn_skipn|]. rewrite skipn_length. cbn [length] in *. lia.
+Qed.
+
+Lemma iter_batches {A B} (g : A -> B) n (l : list A) : 1 <= n ->
+  concat (map (map g) (chunks_of n l)) = map g l.
+Proof.
+  intros Hn. rewrite <- concat_map. f_equal. unfold chunks_of. apply chunks_n_concat; lia.
+Qed.
+
+(* ==================================================== the index table: group starts *)
+(** tbl splits at position r into a part all of whose values are smaller than all values after it *)
+Definition SplitLt (tbl : list Z) (r : Z) : Prop :=
+  exists A B, tbl = A ++ B /\ zlen A = r /\ forall a b, In a A -> In b B -> a < b.
+
+Lemma zrange_app lo a b : zrange lo (a + b) = zrange lo a ++ zrange (lo + Z.of_nat a) b.
+Proof.
+  revert lo. induction a as [|a IH]; intros lo.
+  - cbn [Nat.add app]. unfold zrange at 2. cbn. f_equal. lia.
+  - cbn [Nat.add]. rewrite !zrange_cons, IH. cbn [app]. do 3 f_equal. lia.
+Qed.
+
+Lemma sumZ_app a b : sumZ (a ++ b) = sumZ a + sumZ b.
+Proof. unfold sumZ. induction a as [|x a IH]; cbn; lia. Qed.
+
+Lemma div_lt_q m k q : 1 <= k -> m < q * k -> m / k < q.
+Proof. intros. apply Z.div_lt_upper_bound; lia. Qed.
+Lemma div_ge_q m k q : 1 <= k -> q * k <= m -> q <= m / k.
+Proof. intros. apply Z.div_le_lower_bound; lia. Qed.
+Lemma cdiv_gt_q n k q : 1 <= k -> q * k < n -> q < cdiv n k.
+Proof. intros. unfold cdiv. assert (q + 1 <= (n + k - 1) / k) by (apply Z.div_le_lower_bound; lia). lia. Qed.
+Lemma div_lt_cdiv m n k : 1 <= k -> m < n -> m / k < cdiv n k.
+Proof. intros. unfold cdiv. apply Z.div_lt_upper_bound; [lia|]. assert (n + k - 1 - k < k * ((n + k - 1) / k)) by (pose proof (Z.mul_succ_div_gt (n + k - 1) k ltac:(lia)); lia). lia. Qed.
+
+(** values of the index table from offset [off] are >= off *)
+Lemma itf_lower k lens : 1 <= k -> Forall (fun n => 0 <= n) lens ->
+  forall off v, In v (index_table_from off k lens) -> off <= v.
+Proof.
+  intros Hk. induction 1 as [|n r Hn HF IH]; intros off v Hv; [inversion Hv|].
+  cbn [index_table_from] in Hv. apply in_app_or in Hv as [Hv|Hv].
+  - apply in_map_iff in Hv as [m [<- Hm]]. apply in_zrange in Hm. nia.
+  - apply IH in Hv. unfold cdiv in Hv. nia.
+Qed.
+
+Lemma itf_length k lens : Forall (fun n => 0 <= n) lens ->
+  forall off, zlen (index_table_from off k lens) = sumZ lens.
+Proof.
+  unfold zlen. induction 1 as [|n r Hn HF IH]; intros off; [reflexivity|].
+  cbn [index_table_from sumZ fold_right]. rewrite app_length, map_length, zrange_length.
+  fold (sumZ r). rewrite Nat2Z.inj_add, IH. lia.
+Qed.
+
+(** every position  O_i + q*k  (start of the q-th group of chromosome i) splits the index table *)
+Lemma itf_split k lens : 1 <= k -> Forall (fun n => 0 <= n) lens ->
+  forall i off n q, nth_error lens i = Some n -> 0 <= q -> q * k < n ->
+  SplitLt (index_table_from off k lens) (sumZ (firstn i lens) + q * k).
+Proof.
+  intros Hk HF. induction HF as [|n0 r Hn0 HF IH]; intros i off n q Hi Hq Hqk; [now rewrite nth_error_nil' in Hi|].
+  destruct i as [|i]; cbn [nth_error] in Hi.
+  - injection Hi as ->. cbn [firstn sumZ fold_right index_table_from].
+    replace (Z.to_nat n) with (Z.to_nat (q * k) + Z.to_nat (n - q * k))%nat by lia.
+    rewrite zrange_app, map_app, <- app_assoc.
+    eexists _, _. split; [reflexivity|]. split.
+    + unfold zlen. rewrite map_length, zrange_length. lia.
+    + intros a b Ha Hb. apply in_map_iff in Ha as [m [<- Hm]]. apply in_zrange in Hm.
+      apply in_app_or in Hb as [Hb|Hb].
+      * apply in_map_iff in Hb as [m' [<- Hm']]. apply in_zrange in Hm'.
+        pose proof (div_lt_q m k q Hk ltac:(lia)). pose proof (div_ge_q m' k q Hk ltac:(lia)). lia.
+      * apply (itf_lower k r Hk HF) in Hb.
+        pose proof (div_lt_q m k q Hk ltac:(lia)). pose proof (cdiv_gt_q n k q Hk Hqk). lia.
+  - destruct (IH i (off + cdiv n0 k) n q Hi Hq Hqk) as (A & B & HAB & HlenA & Hlt).
+    cbn [firstn sumZ fold_right index_table_from]. fold (sumZ (firstn i r)).
+    rewrite HAB, app_assoc. eexists _, _. split; [reflexivity|]. split.
+    + unfold zlen in *. rewrite app_length, map_length, zrange_length. lia.
+    + intros a b Ha Hb. apply in_app_or in Ha as [Ha|Ha]; [|now apply Hlt].
+      apply in_map_iff in Ha as [m [<- Hm]]. apply in_zrange in Hm.
+      assert (Hb' : In b (index_table_from (off + cdiv n0 k) k r)) by (rewrite HAB; apply in_or_app; now right).
+      apply (itf_lower k r Hk HF) in Hb'. pose proof (div_lt_cdiv m n0 k Hk ltac:(lia)). lia.
+Qed.
+
+Lemma split_znth tbl r : SplitLt tbl r ->
+  forall x y, 0 <= x < r -> r <= y < zlen tbl -> znth tbl x 0 < znth tbl y 0.
+Proof.
+  intros (A & B & -> & HA & Hlt) x y Hx Hy. unfold zlen, znth in *. rewrite app_length in Hy.
+  apply Hlt.
+  - rewrite app_nth1 by lia. apply nth_In. lia.
+  - rewrite app_nth2 by lia. apply nth_In. lia.
+Qed.
+
+(** the cut of a row-sorted pixel list at a row that splits the table is aligned *)
+Lemma aligned_of_split tbl px n r :
+  RowSorted px -> Forall (fun p => 0 <= row p < n) px -> zlen tbl = n -> 0 <= r ->
+  SplitLt tbl r -> AlignedCut (fun x => znth tbl x 0) px (cut_at px r).
+Proof.
+  intros HS Hrng Hlen Hr Hsp p q Hp Hq.
+  destruct (cut_at_split px r HS) as [A B]. rewrite Forall_forall in A, B, Hrng.
+  specialize (A p Hp). specialize (B q Hq).
+  assert (Hp' : In p px) by (rewrite <- (firstn_skipn (cut_at px r) px); apply in_or_app; now left).
+  assert (Hq' : In q px) by (rewrite <- (firstn_skipn (cut_at px r) px); apply in_or_app; now right).
+  apply (split_znth tbl r Hsp); [specialize (Hrng p Hp'); lia|specialize (Hrng q Hq'); lia].
+Qed.
+
+Lemma aligned_end (f : Z -> Z) px : AlignedCut f px (length px).
+Proof. intros p q _ Hq. rewrite skipn_all in Hq. inversion Hq. Qed.
+
+(* ===================================================== the coarse-row edges *)
+Lemma cumsum_from_length acc l : length (cumsum_from acc l) = length l.
+Proof. revert acc. induction l as [|x l IH]; intros acc; cbn; [reflexivity|]. now rewrite IH. Qed.
+
+Lemma cumsum_from_nth l : forall acc i, (i < length l)%nat ->
+  nth i (cumsum_from acc l) 0 = acc + sumZ (firstn (S i) l).
+Proof.
+  induction l as [|x l IH]; intros acc i Hi; [cbn in Hi; lia|].
+  destruct i as [|i]; cbn [cumsum_from nth firstn sumZ fold_right].
+  - cbn. lia.
+  - rewrite IH by (cbn in Hi; lia). cbn [firstn sumZ fold_right]. lia.
+Qed.
+
+Lemma choff_nth lens i : (i <= length lens)%nat -> nth i (0 :: cumsum lens) 0 = sumZ (firstn i lens).
+Proof.
+  intros Hi. destruct i as [|i]; [reflexivity|]. cbn [nth]. unfold cumsum.
+  rewrite cumsum_from_nth by lia. lia.
+Qed.
+
+Lemma sumZ_firstn_S lens i n : nth_error lens i = Some n -> sumZ (firstn (S i) lens) = sumZ (firstn i lens) + n.
+Proof.
+  revert i. induction lens as [|x l IH]; intros i Hi; [now rewrite nth_error_nil' in Hi|].
+  destruct i as [|i]; cbn [nth_error] in Hi.
+  - injection Hi as ->. cbn. lia.
+  - specialize (IH i Hi). change (firstn (S (S i)) (x :: l)) with (x :: firstn (S i) l).
+    change (firstn (S i) (x :: l)) with (x :: firstn i l).
+    change (sumZ (x :: firstn (S i) l)) with (x + sumZ (firstn (S i) l)).
+    change (sumZ (x :: firstn i l)) with (x + sumZ (firstn i l)). lia.
+Qed.
+
+Lemma sumZ_nonneg l : Forall (fun n => 0 <= n) l -> 0 <= sumZ l.
+Proof. induction 1; cbn; [lia|]. fold (sumZ l). lia. Qed.
+
+Lemma sumZ_firstn_le lens i : Forall (fun n => 0 <= n) lens -> sumZ (firstn i lens) <= sumZ lens.
+Proof.
+  intros HF. rewrite <- (firstn_skipn i lens) at 2. rewrite sumZ_app.
+  assert (0 <= sumZ (skipn i lens)).
+  { apply sumZ_nonneg. rewrite <- (firstn_skipn i lens) in HF. apply Forall_app in HF. tauto. }
+  lia.
+Qed.
+
+Lemma sumZ_firstn_mono lens i j : Forall (fun n => 0 <= n) lens -> (i <= j)%nat ->
+  sumZ (firstn i lens) <= sumZ (firstn j lens).
+Proof.
+  intros HF Hij. replace i with (Nat.min i j) by lia. rewrite <- firstn_firstn.
+  apply sumZ_firstn_le. rewrite <- (firstn_skipn j lens) in HF. apply Forall_app in HF. tauto.
+Qed.
+
+(** elements of l[lo:hi][::k] are the l[lo + q*k] with lo + q*k < hi *)
+Lemma stride_slice_in (l : list Z) lo hi k x : 1 <= k -> 0 <= lo ->
+  In x (stride k (slice l lo hi)) ->
+  exists q, 0 <= q /\ lo + q * k < hi /\ lo + q * k < zlen l /\ x = znth l (lo + q * k) 0.
+Proof.
+  intros Hk Hlo Hx. apply In_nth_error in Hx as [q Hq]. rewrite stride_nth in Hq by lia.
+  unfold slice in Hq. rewrite nth_error_firstn in Hq.
+  destruct (q * Z.to_nat k <? Z.to_nat (hi - lo))%nat eqn:E; [|discriminate].
+  rewrite nth_error_skipn in Hq. exists (Z.of_nat q).
+  assert (Hlt : (Z.to_nat lo + q * Z.to_nat k < length l)%nat) by (apply nth_error_Some; congruence).
+  apply Nat.ltb_lt in E. unfold zlen.
+  split; [lia|]. split; [nia|]. split; [nia|].
+  unfold znth. replace (Z.to_nat (lo + Z.of_nat q * k)) with (Z.to_nat lo + q * Z.to_nat k)%nat by nia.
+  symmetry. now apply nth_error_nth.
+Qed.
+
+Lemma stride_sorted (l : list Z) k : 1 <= k -> StronglySorted Z.le l -> StronglySorted Z.le (stride k l).
+Proof.
+  intros Hk HS.
+  assert (Hgen : forall m (s : list Z), (forall i j x y, (i <= j)%nat -> nth_error s i = Some x -> nth_error s j = Some y -> x <= y) ->
+                 length s = m -> StronglySorted Z.le s).
+  { induction m as [|m IH]; intros s Hs Hl; [destruct s; [constructor|discriminate]|].
+    destruct s as [|a s]; [discriminate|]. constructor.
+    - apply IH; [|cbn in Hl; lia]. intros i j x y Hij Hx Hy. apply (Hs (S i) (S j)); auto. lia.
+    - apply Forall_forall. intros y Hy. apply In_nth_error in Hy as [j Hj]. apply (Hs 0%nat (S j)); auto. lia. }
+  apply (Hgen (length (stride k l))); [|reflexivity].
+  intros i j x y Hij Hx Hy. rewrite stride_nth in Hx, Hy by lia.
+  assert (Hj : (j * Z.to_nat k < length l)%nat) by (apply nth_error_Some; congruence).
+  pose proof (sorted_le_nth l HS (i * Z.to_nat k) (j * Z.to_nat k) ltac:(nia)) as H.
+  rewrite (nth_error_nth _ _ 0 Hx), (nth_error_nth _ _ 0 Hy) in H. exact H.
+Qed.
+
+Lemma concat_sorted (F : Z -> list Z) (l : list Z) :
+  StronglySorted Z.lt l -> (forall i, In i l -> StronglySorted Z.le (F i)) ->
+  (forall i j x y, In i l -> In j l -> i < j -> In x (F i) -> In y (F j) -> x <= y) ->
+  StronglySorted Z.le (concat (map F l)).
+Proof.
+  induction 1 as [|a l HS IH Hall]; intros Hs Hx; cbn [map concat]; [constructor|].
+  apply ssorted_app_gen.
+  - apply Hs. now left.
+  - apply IH; [intros; apply Hs; now right|]. intros i j x y Hi Hj. apply Hx; now right.
+  - intros x y Hx' Hy. apply in_concat in Hy as [s [Hs' Hy]]. apply in_map_iff in Hs' as [j [<- Hj]].
+    rewrite Forall_forall in Hall. apply (Hx a j); auto; [now left|now right].
+Qed.
+
+Lemma slice_sorted (l : list Z) lo hi : StronglySorted Z.le l -> StronglySorted Z.le (slice l lo hi).
+Proof.
+  intros HS. unfold slice.
+  assert (Hsk : forall n (s : list Z), StronglySorted Z.le s -> StronglySorted Z.le (skipn n s)).
+  { induction n as [|n IH]; intros s H; [exact H|]. destruct s; [constructor|]. cbn. apply IH. now inversion H. }
+  assert (Hfi : forall n (s : list Z), StronglySorted Z.le s -> StronglySorted Z.le (firstn n s)).
+  { induction n as [|n IH]; intros s H; [constructor|]. destruct s as [|a s]; [constructor|]. cbn.
+    inversion H as [|? ? H1 H2]; subst. constructor; [now apply IH|].
+    rewrite Forall_forall in *. intros y Hy. apply H2. rewrite <- (firstn_skipn n s). apply in_or_app. now left. }
+  apply Hfi, Hsk, HS.
+Qed.
+
+Lemma sorted_of_nth_error (s : list Z) :
+  (forall i j x y, (i <= j)%nat -> nth_error s i = Some x -> nth_error s j = Some y -> x <= y) ->
+  StronglySorted Z.le s.
+Proof.
+  induction s as [|a s IH]; intros Hs; [constructor|]. constructor.
+  - apply IH. intros i j x y Hij Hx Hy. apply (Hs (S i) (S j)); auto. lia.
+  - apply Forall_forall. intros y Hy. apply In_nth_error in Hy as [j Hj]. apply (Hs 0%nat (S j)); auto. lia.
+Qed.
+
+Lemma filter_length_mono {A} (f g : A -> bool) l :
+  (forall x, f x = true -> g x = true) -> (length (filter f l) <= length (filter g l))%nat.
+Proof.
+  intros H. induction l as [|x l IH]; [reflexivity|]. cbn [filter].
+  destruct (f x) eqn:E; [rewrite (H x E); cbn; lia|]. destruct (g x); cbn; lia.
+Qed.
+
+Lemma cut_at_mono px r r' : r <= r' -> (cut_at px r <= cut_at px r')%nat.
+Proof. intros H. unfold cut_at. apply filter_length_mono. intros x Hx. lia. Qed.
+
+Lemma stride_cons {A} k (x : A) l : exists rest, stride k (x :: l) = x :: rest.
+Proof. unfold stride. cbn [length stride_n]. eexists. reflexivity. Qed.
+
+Section Edges.
+  Variable lens : list Z.
+  Variable px : list pixel.
+  Variable k : Z.
+  Hypothesis Hk : 1 <= k.
+  Hypothesis Hlens : Forall (fun n => 1 <= n) lens.
+  Hypothesis Hsorted : RowSorted px.
+  Hypothesis Hrows : Forall (fun p => 0 <= row p < sumZ lens) px.
+  Let n := sumZ lens.
+  Let b1off := bin1_offset n px.
+  Let tbl := index_table lens k.
+  Let f := fun r => znth tbl r 0.
+
+  Lemma lens_nonneg : Forall (fun n => 0 <= n) lens.
+  Proof. eapply Forall_impl; [|exact Hlens]. intros; cbn in *; lia. Qed.
+
+  Lemma n_nonneg : 0 <= n.
+  Proof. apply sumZ_nonneg, lens_nonneg. Qed.
+
+  Lemma b1off_len : zlen b1off = n + 1.
+  Proof. pose proof n_nonneg. unfold b1off, bin1_offset, zlen. rewrite map_length, zrange_length. lia. Qed.
+
+  Lemma b1off_znth r : 0 <= r <= n -> znth b1off r 0 = Z.of_nat (cut_at px r).
+  Proof. apply bin1_offset_nth. Qed.
+
+  Lemma b1off_sorted : StronglySorted Z.le b1off.
+  Proof.
+    pose proof n_nonneg as Hn.
+    apply sorted_of_nth_error. intros i j x y Hij Hx Hy. unfold b1off, bin1_offset in Hx, Hy.
+    assert (Hj : (j < Z.to_nat (n + 1))%nat).
+    { rewrite <- (zrange_length 0 (Z.to_nat (n + 1))), <- (map_length (fun i0 => zlen (filter (fun p => row p <? i0) px))).
+      apply nth_error_Some. congruence. }
+    rewrite nth_error_map, nth_error_zrange in Hx, Hy by lia. cbn in Hx, Hy.
+    injection Hx as <-. injection Hy as <-. unfold zlen.
+    apply inj_le. apply (cut_at_mono px). lia.
+  Qed.
+
+  Lemma cut_at_zero : cut_at px 0 = 0%nat.
+  Proof.
+    unfold cut_at. rewrite filter_none; [reflexivity|]. intros x Hx.
+    rewrite Forall_forall in Hrows. specialize (Hrows x Hx). lia.
+  Qed.
+
+  Lemma cut_at_n : cut_at px n = length px.
+  Proof.
+    unfold cut_at. rewrite filter_all; [reflexivity|]. intros x Hx.
+    rewrite Forall_forall in Hrows. specialize (Hrows x Hx). fold n in Hrows. lia.
+  Qed.
+
+  Lemma b1off_last : last b1off 0 = zlen px.
+  Proof.
+    pose proof n_nonneg as Hn. pose proof b1off_len as Hl. unfold zlen in Hl.
+    rewrite last_nth. replace (length b1off - 1)%nat with (Z.to_nat n) by lia.
+    change (nth (Z.to_nat n) b1off 0) with (znth b1off n 0). rewrite b1off_znth by lia.
+    rewrite cut_at_n. reflexivity.
+  Qed.
+
+  Let choff := 0 :: cumsum lens.
+  Let F := fun i => stride k (slice b1off (znth choff i 0) (znth choff (i + 1) 0)).
+
+  Lemma choff_z i : 0 <= i <= zlen lens -> znth choff i 0 = sumZ (firstn (Z.to_nat i) lens).
+  Proof. intros Hi. unfold znth, choff. apply choff_nth. unfold zlen in Hi. lia. Qed.
+
+  (** an element of chromosome i's piece is bin1_offset[r] for a group-start row r of chromosome i *)
+  Lemma F_in i x : 0 <= i < zlen lens -> In x (F i) ->
+    exists ni q, nth_error lens (Z.to_nat i) = Some ni /\ 0 <= q /\ q * k < ni /\
+      let r := sumZ (firstn (Z.to_nat i) lens) + q * k in
+      0 <= r < n /\ x = Z.of_nat (cut_at px r).
+  Proof.
+    intros Hi Hx. unfold F in Hx. rewrite !choff_z in Hx by lia.
+    destruct (nth_error lens (Z.to_nat i)) as [ni|] eqn:E.
+    2:{ apply nth_error_None in E. unfold zlen in Hi. lia. }
+    replace (Z.to_nat (i + 1)) with (S (Z.to_nat i)) in Hx by lia.
+    rewrite (sumZ_firstn_S lens _ ni E) in Hx.
+    pose proof (sumZ_firstn_mono lens 0 (Z.to_nat i) lens_nonneg ltac:(lia)) as H0.
+    change (sumZ (firstn 0 lens)) with 0 in H0.
+    apply stride_slice_in in Hx as (q & Hq & Hlt & Hlen & ->); [|lia|lia].
+    exists ni, q. split; [reflexivity|]. split; [lia|]. split; [lia|]. cbv zeta.
+    pose proof (sumZ_firstn_le lens (S (Z.to_nat i)) lens_nonneg) as Hle.
+    rewrite (sumZ_firstn_S lens _ ni E) in Hle. fold n in Hle.
+    split; [lia|]. apply b1off_znth. lia.
+  Qed.
+
+  Lemma F_aligned i x : 0 <= i < zlen lens -> In x (F i) -> AlignedCut f px (Z.to_nat x).
+  Proof.
+    intros Hi Hx. destruct (F_in i x Hi Hx) as (ni & q & E & Hq & Hqk & Hr & ->).
+    rewrite Nat2Z.id. apply (aligned_of_split tbl px n); auto.
+    - unfold tbl, index_table. apply itf_length, lens_nonneg.
+    - lia.
+    - unfold tbl, index_table. eapply itf_split; eauto. apply lens_nonneg.
+  Qed.
+
+  Theorem coarse_edges_facts :
+    let E := coarse_edges choff b1off k in
+    (exists rest, E = 0 :: rest) /\ StronglySorted Z.le E /\ last E 0 = zlen px /\
+    Forall (fun c => AlignedCut f px (Z.to_nat c)) E.
+  Proof.
+    pose proof n_nonneg as Hn. pose proof lens_nonneg as Hnn.
+    assert (HE : coarse_edges choff b1off k = concat (map F (zrange 0 (length lens))) ++ [last b1off 0]).
+    { unfold coarse_edges, F, choff. cbn [length]. unfold cumsum. rewrite cumsum_from_length.
+      replace (S (length lens) - 1)%nat with (length lens) by lia. reflexivity. }
+    cbv zeta. rewrite HE.
+    assert (Hin : forall i, In i (zrange 0 (length lens)) -> 0 <= i < zlen lens).
+    { intros i Hi. apply in_zrange in Hi. unfold zlen. lia. }
+    assert (Hel : forall x, In x (concat (map F (zrange 0 (length lens)))) -> exists r, 0 <= r < n /\ x = znth b1off r 0).
+    { intros x Hx. apply in_concat in Hx as [s [Hs Hx]]. apply in_map_iff in Hs as [i [<- Hi]].
+      destruct (F_in i x (Hin i Hi) Hx) as (ni & q & _ & _ & _ & Hr & ->).
+      eexists. split; [exact Hr|]. symmetry. apply b1off_znth. lia. }
+    split; [|split; [|split]].
+    - destruct (nth_error lens 0) as [n0|] eqn:E0.
+      + assert (Hn0 : 1 <= n0).
+        { apply nth_error_In in E0. rewrite Forall_forall in Hlens. now apply Hlens. }
+        assert (Hlen : (0 < length lens)%nat) by (apply nth_error_Some; congruence).
+        destruct (length lens) as [|m] eqn:Em; [lia|]. rewrite zrange_cons. cbn [map concat].
+        assert (HF0 : exists rest, F 0 = 0 :: rest).
+        { unfold F. rewrite !choff_z by (unfold zlen; lia).
+          change (Z.to_nat 0) with 0%nat. change (Z.to_nat (0 + 1)) with 1%nat.
+          rewrite (sumZ_firstn_S lens 0 n0 E0). change (sumZ (firstn 0 lens)) with 0.
+          unfold slice. cbn [skipn Z.to_nat].
+          unfold b1off, bin1_offset.
+          replace (Z.to_nat (n + 1)) with (S (Z.to_nat n)) by lia. rewrite zrange_cons. cbn [map].
+          replace (Z.to_nat (0 + n0 - 0)) with (S (Z.to_nat (n0 - 1))) by lia. cbn [firstn].
+          destruct (stride_cons k (zlen (filter (fun p => row p <? 0) px)) (firstn (Z.to_nat (n0 - 1))
+             (map (fun i => zlen (filter (fun p => row p <? i) px)) (zrange (0 + 1) (Z.to_nat n))))) as [rest Hrest].
+          exists rest. rewrite Hrest. f_equal. unfold zlen. fold (cut_at px 0). rewrite cut_at_zero. reflexivity. }
+        destruct HF0 as [rest ->]. eexists. cbn [app]. reflexivity.
+      + apply nth_error_None in E0. assert (Hl0 : length lens = 0%nat) by lia. rewrite Hl0.
+        exists []. change (zrange 0 0) with (@nil Z). cbn [map concat app].
+        rewrite b1off_last. f_equal.
+        assert (Hnil : lens = []) by now apply length_zero_iff_nil.
+        destruct (nth_error px 0) as [p|] eqn:Ep.
+        * exfalso. apply nth_error_In in Ep. rewrite Forall_forall in Hrows. specialize (Hrows _ Ep).
+          rewrite Hnil in Hrows. cbn in Hrows. lia.
+        * apply nth_error_None in Ep. unfold zlen. lia.
+    - apply ssorted_app_gen.
+      + apply concat_sorted.
+        * clear. unfold zrange. generalize 0%nat as s. induction (length lens) as [|m IH]; intros s; [constructor|].
+          cbn [seq map]. constructor; [apply IH|]. apply Forall_forall. intros y Hy.
+          apply in_map_iff in Hy as [j [<- Hj]]. apply in_seq in Hj. lia.
+        * intros i Hi. unfold F. apply stride_sorted; [exact Hk|]. apply slice_sorted, b1off_sorted.
+        * intros i j x y Hi Hj Hij Hx Hy.
+          destruct (F_in i x (Hin i Hi) Hx) as (ni & q & E1 & Hq & Hqk & Hr & ->).
+          destruct (F_in j y (Hin j Hj) Hy) as (nj & q' & E2 & Hq' & Hqk' & Hr' & ->).
+          apply inj_le. apply cut_at_mono.
+          pose proof (Hin i Hi) as Ri. pose proof (Hin j Hj) as Rj.
+          pose proof (sumZ_firstn_mono lens (S (Z.to_nat i)) (Z.to_nat j) Hnn ltac:(lia)) as Hm.
+          rewrite (sumZ_firstn_S lens _ ni E1) in Hm. nia.
+      + constructor; constructor.
+      + intros x y Hx [<-|[]]. destruct (Hel x Hx) as (r & Hr & ->).
+        apply sorted_le_last; [apply b1off_sorted|]. unfold znth. apply nth_In.
+        pose proof b1off_len as Hl. unfold zlen in Hl. lia.
+    - rewrite last_last. apply b1off_last.
+    - apply Forall_app. split.
+      + apply Forall_forall. intros x Hx. apply in_concat in Hx as [s [Hs Hx]].
+        apply in_map_iff in Hs as [i [<- Hi]]. apply (F_aligned i x (Hin i Hi) Hx).
+      + constructor; [|constructor]. rewrite b1off_last. unfold zlen. rewrite Nat2Z.id. apply aligned_end.
+  Qed.
+End Edges.
+
+(* ============================================ the chunk stream is the canonical aggregate *)
+(** index level: with the index table as re-keying, for every chunk size and batch size *)
+Theorem coarsen_stream_canon lens px k cs bs :
+  1 <= k -> 1 <= cs -> 1 <= bs ->
+  Forall (fun n => 1 <= n) lens -> RowSorted px -> Forall (fun p => 0 <= row p < sumZ lens) px ->
+  let tbl := index_table lens k in
+  let edges := greedy_prune_partition (coarse_edges (0 :: cumsum lens) (bin1_offset (sumZ lens) px) k) cs in
+  concat (coarsener_iter px tbl edges bs) = aggregate (map (rekey tbl) px).
+Proof.
+  intros Hk Hcs Hbs Hlens HS Hrows tbl edges.
+  destruct (coarse_edges_facts lens px k Hk Hlens HS Hrows) as ((rest & HE) & HSE & Hlast & Hal).
+  unfold edges. rewrite HE in *.
+  destruct (prune_subsequence rest cs HSE Hcs) as ((idx & Hp & Hidxs & Hidxr) & Hhd & Hl & Hps).
+  set (p := greedy_prune_partition (0 :: rest) cs) in *.
+  unfold coarsener_iter. rewrite iter_batches by exact Hbs.
+  assert (Halp : Forall (fun c => AlignedCut (fun r => znth tbl r 0) px (Z.to_nat c)) p).
+  { rewrite Hp. apply Forall_forall. intros c Hc. apply in_map_iff in Hc as [i [<- Hi]].
+    rewrite Forall_forall in Hal, Hidxr. apply Hal. unfold znth. apply nth_In.
+    specialize (Hidxr i Hi). unfold zlen in Hidxr. lia. }
+  rewrite Hlast in Hl.
+  destruct p as [|a e] eqn:Ep.
+  - cbn [last] in Hl. destruct px; [reflexivity|]. unfold zlen in Hl. cbn in Hl. lia.
+  - cbn [hd] in Hhd. subst a.
+    rewrite (spans_canon tbl px e 0 Hps ltac:(lia)); [reflexivity|exact Hl|exact Halp].
+Qed.
+
+(* ======================================= bridging the flat table to chromosome blocks *)
+Lemma nodup_block o s blk (rest : list Z) :
+  Tiled o s blk -> blk <> [] -> ~ In o rest ->
+  nodup Z.eq_dec (map bchrom blk ++ rest) = o :: nodup Z.eq_dec rest.
+Proof.
+  intros HT. induction HT as [|s e l Hse HT IH]; intros Hne Hnot; [congruence|].
+  cbn [map app]. unfold bchrom at 1. cbn [fst nodup].
+  destruct l as [|y l].
+  - cbn [map app]. destruct (in_dec Z.eq_dec o rest); [contradiction|reflexivity].
+  - assert (Hy : bchrom y = o) by (eapply tiled_chrom; [exact HT|now left]).
+    destruct (in_dec Z.eq_dec o (map bchrom (y :: l) ++ rest)) as [_|n0].
+    + apply IH; [discriminate|exact Hnot].
+    + exfalso. apply n0. cbn [map app]. left. exact Hy.
+Qed.
+
+Lemma chroms_of_blocksfrom o blocks : BlocksFrom o blocks ->
+  chroms_of (concat blocks) = zrange o (length blocks).
+Proof.
+  induction 1 as [|o blk rest Hne HT HB IH]; [reflexivity|].
+  unfold chroms_of in *. cbn [concat length]. rewrite map_app, zrange_cons.
+  rewrite (nodup_block o 0 blk _ HT Hne).
+  - now rewrite IH.
+  - intros Hin. apply in_map_iff in Hin as [y [Hy Hin]].
+    pose proof (blocksfrom_chrom _ _ HB y Hin). lia.
+Qed.
+
+Lemma chroms_of_valid_eq blocks : ValidBlocks blocks -> chroms_of (concat blocks) = zrange 0 (length blocks).
+Proof. intros HV. apply chroms_of_blocksfrom. now apply valid_blocksfrom. Qed.
+
+Lemma map_chroms_valid {B} (G : Z -> list bin -> B) blocks : ValidBlocks blocks ->
+  map (fun c => G c (rows_of (concat blocks) c)) (chroms_of (concat blocks)) =
+  map (fun ib => G (fst ib) (snd ib)) (enumerate blocks).
+Proof.
+  intros HV. rewrite chroms_of_valid_eq by exact HV. apply nth_error_ext'. intros i.
+  rewrite !nth_error_map.
+  destruct (nth_error blocks i) as [blk|] eqn:E.
+  - rewrite (nth_error_enumerate _ _ _ E). rewrite nth_error_zrange by (apply nth_error_Some; congruence).
+    cbn [option_map fst snd]. rewrite Z.add_0_l. now rewrite (rows_of_valid _ HV i blk E).
+  - pose proof E as E'. apply nth_error_None in E'.
+    assert (H1 : nth_error (zrange 0 (length blocks)) i = None) by (apply nth_error_None; rewrite zrange_length; lia).
+    assert (H2 : nth_error (enumerate blocks) i = None) by (apply nth_error_None; rewrite enumerate_length; lia).
+    now rewrite H1, H2.
+Qed.
+
+Lemma map_snd_enumerate {A} (l : list A) : map snd (enumerate l) = l.
+Proof.
+  unfold enumerate. generalize 0 as lo. induction l as [|x l IH]; intros lo; [reflexivity|].
+  cbn [length]. rewrite zrange_cons. cbn [combine map snd]. f_equal. apply IH.
+Qed.
+
+Lemma map_groups_valid {B} (G : list bin -> B) blocks : ValidBlocks blocks ->
+  map (fun c => G (rows_of (concat blocks) c)) (chroms_of (concat blocks)) = map G blocks.
+Proof.
+  intros HV. rewrite (map_chroms_valid (fun _ g => G g) blocks HV). cbn [fst snd].
+  rewrite <- (map_snd_enumerate blocks) at 2. now rewrite map_map.
+Qed.
+
+Lemma chrom_offset_valid blocks : ValidBlocks blocks ->
+  chrom_offset (concat blocks) = 0 :: cumsum (map zlen blocks).
+Proof.
+  intros HV. unfold chrom_offset, chrom_binoffset, nbins_per_chrom. f_equal. f_equal.
+  apply (map_groups_valid (fun g => zlen g) blocks HV).
+Qed.
+
+Lemma zlen_concat {A} (ls : list (list A)) : zlen (concat ls) = sumZ (map zlen ls).
+Proof.
+  unfold zlen. induction ls as [|l ls IH]; [reflexivity|]. cbn [concat map sumZ fold_right].
+  rewrite app_length, Nat2Z.inj_add, IH. reflexivity.
+Qed.
+
+(* ======================================================== coarsen_bins: the new table *)
+Definition bin0 : bin := (0, 0, 0).
+
+(** new bin q of a chromosome block: [start(old q*k), end(old min(q*k+k, n) - 1)) *)
+Definition group_bin (k : Z) (blk : list bin) (q : Z) : bin :=
+  let x := nth (Z.to_nat (q * k)) blk bin0 in
+  (bchrom x, bstart x, bend (nth (Z.to_nat (Z.min (q * k + k) (zlen blk) - 1)) blk bin0)).
+
+Definition coarsen_block (k : Z) (blk : list bin) : list bin :=
+  map (group_bin k blk) (zrange 0 (Z.to_nat (cdiv (zlen blk) k))).
+
+Lemma div_facts n k : 1 <= k -> 0 <= n -> n / k <= cdiv n k <= n / k + 1.
+Proof. intros. unfold cdiv. nia. Qed.
+Lemma lt_div_iff q n k : 1 <= k -> (q < n / k <-> q * k + k - 1 < n).
+Proof.
+  intros Hk. split; intros H.
+  - assert (q + 1 <= n / k) by lia. assert ((q + 1) * k <= n) by nia. lia.
+  - assert (q + 1 <= n / k) by (apply Z.div_le_lower_bound; lia). lia.
+Qed.
+Lemma lt_cdiv_iff q n k : 1 <= k -> (q < cdiv n k <-> q * k < n).
+Proof.
+  intros Hk. split; intros H.
+  - unfold cdiv in H. nia.
+  - now apply cdiv_gt_q.
+Qed.
+
+Lemma nth_error_combine_full {A B} (a : list A) (b : list B) i :
+  nth_error (combine a b) i = match nth_error a i, nth_error b i with Some x, Some y => Some (x, y) | _, _ => None end.
+Proof.
+  revert b i. induction a as [|x a IH]; intros b i.
+  - cbn. rewrite !nth_error_nil'. reflexivity.
+  - destruct b as [|y b]; [cbn [combine]; rewrite !nth_error_nil'; now destruct (nth_error (x :: a) i)|].
+    destruct i as [|i]; [reflexivity|]. cbn [combine nth_error]. apply IH.
+Qed.
+
+Lemma last_nth_bin (l : list bin) : last l bin0 = nth (length l - 1) l bin0.
+Proof.
+  induction l as [|a [|b r] IH]; [reflexivity|reflexivity|].
+  change (last (a :: b :: r) bin0) with (last (b :: r) bin0). rewrite IH. cbn [length].
+  replace (S (S (length r)) - 1)%nat with (S (S (length r) - 1)) by lia. reflexivity.
+Qed.
+
+Theorem coarsen_group_spec k blk : 1 <= k -> blk <> [] ->
+  coarsen_group k (chrom_end blk) blk = coarsen_block k blk.
+Proof.
+  intros Hk Hne. unfold coarsen_group, coarsen_block.
+  set (n := zlen blk). assert (Hn : 1 <= n) by (unfold n, zlen; destruct blk; [congruence|cbn; lia]).
+  set (out := stride k blk). set (ends := map bend (stride k (skipn (Z.to_nat (k - 1)) blk))).
+  assert (Lout : Z.of_nat (length out) = cdiv n k) by (apply stride_length; exact Hk).
+  assert (Lends : Z.of_nat (length ends) = n / k).
+  { unfold ends. rewrite map_length, stride_length by exact Hk. unfold zlen. rewrite skipn_length.
+    fold (zlen blk). unfold cdiv. unfold n, zlen in *.
+    destruct (Z_lt_le_dec (Z.of_nat (length blk)) (k - 1)) as [Hlt|Hge].
+    - replace (Z.of_nat (length blk - Z.to_nat (k - 1))) with 0 by lia.
+      rewrite (Z.div_small (Z.of_nat (length blk)) k) by lia. apply Z.div_small. lia.
+    - replace (Z.of_nat (length blk - Z.to_nat (k - 1)) + k - 1) with (Z.of_nat (length blk)) by lia. reflexivity. }
+  pose proof (div_facts n k Hk ltac:(lia)) as Hdf.
+  apply nth_error_ext'. intros q.
+  rewrite !nth_error_map, nth_error_combine_full.
+  destruct (Z_lt_le_dec (Z.of_nat q) (cdiv n k)) as [Hq|Hq].
+  2:{ assert (H1 : nth_error out q = None) by (apply nth_error_None; lia).
+      assert (H2 : nth_error (zrange 0 (Z.to_nat (cdiv n k))) q = None) by (apply nth_error_None; rewrite zrange_length; lia).
+      now rewrite H1, H2. }
+  rewrite nth_error_zrange by lia. cbn [option_map]. rewrite Z.add_0_l.
+  assert (Hqk : Z.of_nat q * k < n) by now apply lt_cdiv_iff.
+  assert (Hout : nth_error out q = Some (nth (Z.to_nat (Z.of_nat q * k)) blk bin0)).
+  { unfold out. rewrite stride_nth by exact Hk.
+    replace (q * Z.to_nat k)%nat with (Z.to_nat (Z.of_nat q * k)) by nia.
+    apply nth_error_nth'. unfold n, zlen in Hqk. lia. }
+  rewrite Hout.
+  assert (Hends : nth_error (if (length ends <? length out)%nat then ends ++ [chrom_end blk] else ends) q =
+                  Some (bend (nth (Z.to_nat (Z.min (Z.of_nat q * k + k) n - 1)) blk bin0))).
+  { destruct (Z_lt_le_dec (Z.of_nat q) (n / k)) as [Hlt|Hge].
+    - assert (Hfull : Z.of_nat q * k + k - 1 < n) by now apply lt_div_iff.
+      assert (He : nth_error ends q = Some (bend (nth (Z.to_nat (Z.of_nat q * k + k - 1)) blk bin0))).
+      { unfold ends. rewrite nth_error_map, stride_nth, nth_error_skipn by exact Hk.
+        replace (Z.to_nat (k - 1) + q * Z.to_nat k)%nat with (Z.to_nat (Z.of_nat q * k + k - 1)) by nia.
+        rewrite (nth_error_nth' blk bin0) by (unfold n, zlen in Hfull; lia). reflexivity. }
+      replace (Z.min (Z.of_nat q * k + k) n - 1) with (Z.of_nat q * k + k - 1) by lia.
+      destruct (length ends <? length out)%nat; [|exact He].
+      rewrite nth_error_app1 by lia. exact He.
+    - assert (Hnf : ~ (Z.of_nat q * k + k - 1 < n)) by (intros X; apply lt_div_iff in X; lia).
+      assert (Hlt : (length ends <? length out)%nat = true) by (apply Nat.ltb_lt; lia).
+      rewrite Hlt. rewrite nth_error_app2 by lia. replace (q - length ends)%nat with 0%nat by lia.
+      cbn [nth_error]. unfold chrom_end. rewrite last_nth_bin.
+      replace (Z.min (Z.of_nat q * k + k) n - 1) with (n - 1) by lia.
+      unfold n, zlen. do 3 f_equal. lia. }
+  rewrite Hends. cbn [fst snd]. unfold group_bin. fold n. reflexivity.
+Qed.
